@@ -111,10 +111,7 @@ Proof.
     assert (Hb' : mu b' cs' < F) by lia.
     specialize (Hq a cs' b' Hb'). destruct (q a cs' b'); auto; try lia.
     destruct Hq as [Hq1 Hq2]. cbn beta in Hq1. split; [|lia]. destruct (str a0); lia.
-  - pose proof (mu_cs_mono b _ _ Hp) as Hm.
-    assert (Hb' : mu b cs' < F) by lia.
-    specialize (Hh k cs' b Hb'). destruct (h k cs' b); auto; try lia.
-    destruct Hh as [Hh1 Hh2]. split; [|lia]. destruct (str a); lia.
+  - exact (Hh k cs b Hb).
 Qed.
 
 Lemma gd_try_else_r {A B} (str : B -> bool) (p : parser A) (q : A -> parser B) h :
@@ -126,10 +123,7 @@ Proof.
     assert (Hb' : mu b' cs' < F) by lia.
     specialize (Hq a cs' b' Hb'). destruct (q a cs' b'); auto; try lia.
     destruct Hq as [Hq1 Hq2]. split; [|lia]. destruct (str a0); lia.
-  - pose proof (mu_cs_mono b _ _ Hp) as Hm.
-    assert (Hb' : mu b cs' < F) by lia.
-    specialize (Hh k cs' b Hb'). destruct (h k cs' b); auto; try lia.
-    destruct Hh as [Hh1 Hh2]. split; [|lia]. destruct (str a); lia.
+  - exact (Hh k cs b Hb).
 Qed.
 
 Lemma gd_try {A} (str : A -> bool) (p : parser A) h :
@@ -137,17 +131,13 @@ Lemma gd_try {A} (str : A -> bool) (p : parser A) h :
 Proof.
   intros Hp Hh cs b Hb. unfold try_, try_else. specialize (Hp cs b Hb).
   destruct (p cs b) as [a b' cs'|k cs'| | | |]; auto.
-  pose proof (mu_cs_mono b _ _ Hp) as Hm.
-  assert (Hb' : mu b cs' < F) by lia.
-  specialize (Hh k cs' b Hb'). destruct (h k cs' b); auto; try lia.
-  destruct Hh as [Hh1 Hh2]. split; [|lia]. destruct (str a); lia.
+  exact (Hh k cs b Hb).
 Qed.
 
 Lemma gd_restore {A} (p : parser A) : wgd p -> wgd (restore p).
 Proof.
   intros Hp cs b Hb. unfold restore. specialize (Hp cs b Hb).
-  destruct (p cs b) as [a b' cs'| | | | |]; auto.
-  destruct Hp as [_ Hp2]. cbn beta. split; [|exact Hp2]. apply mu_cs_mono; exact Hp2.
+  destruct (p cs b) as [a b' cs'| | | | |]; auto; cbn beta; lia.
 Qed.
 
 Lemma sgd_lex {A} (f : bytes -> option (A * bytes)) : shortens f -> sgd (lex f).
